@@ -14,7 +14,7 @@ class C07(Pipeline):
           ("EvmAttest_mc", "EvmAttest_handover_big", ("thorough",))]
     gens = [Gen("EvmAttestGen", "EvmAttestGen_cover", "bfs", tiers=("quick",), timeout=300),
             Gen("EvmAttestGen", "EvmAttestGen_cover_big", "bfs", tiers=("thorough",), timeout=1200),
-            Gen("EvmAttestGen", "EvmAttestGen_sim", "simulate", num=40, depth=18, tiers=("quick",)),
+            Gen("EvmAttestGen", "EvmAttestGen_sim", "simulate", num=80, depth=18, tiers=("quick",)),
             Gen("EvmAttestGen", "EvmAttestGen_sim", "simulate", num=1500, depth=18, tiers=("thorough",), timeout=1200)]
     driver_pkg = "drivers/evmattest"
     driver_test = "TestDriveEvmAttest"
